@@ -44,6 +44,12 @@ static void list_units(const std::string& tier)
         printf("sr=R,ty=%s,ra=%s,shape=S1,pairs=%s\n", ty, rr, th?"all":"famfam0");
         if (th) printf("sr=R,ty=%s,ra=%s,shape=S2,pairs=famfam0\n", ty, rr);
     }
+    // relations over two and three variables (universe not enumerable; operands built lazily from the 1-point family and from "event" functions)
+    for (const char* ty : {"MTi","MTr","EVpi","EVtr"}) for (const char* rr : {"F","Q","I"}) {
+        if (th || rr[0]=='I') printf("sr=R,ty=%s,ra=%s,shape=S3,pairs=famfam0,thin=%d\n", ty, rr, th?2:8);
+        if (th || rr[0]=='I') printf("sr=R,ty=%s,ra=%s,shape=S6,pairs=evev,alt=2,thin=%d\n", ty, rr, th?1:4);
+        if (th) printf("sr=R,ty=%s,ra=%s,shape=S6,pairs=famfam0,alt=2,thin=2\n", ty, rr);
+    }
     if (th) for (const char* rr : {"F","Q"}) { printf("sr=S,ty=EVpi,ra=%s,shape=S3,pairs=all,alt=1\n", rr); printf("sr=S,ty=MTi,ra=%s,shape=S3,pairs=all,alt=1\n", rr); }
     // unary part
     for (const char* ty : {"MTi","MTr","EVpi"}) for (const char* sh : {"S1","S2","S3","S4"}) printf("mode=unary,sr=S,ty=%s,shape=%s\n", ty, sh);
@@ -56,7 +62,7 @@ static std::vector<std::string> g_pat;
 static std::string g_kind, g_shape;
 static void fmt_case(char* buf, size_t n, const long* a)
 {
-    snprintf(buf,n,"%s kind=%s shape=%s forests(a,b,c)=%s a=f%ld b=f%ld variant=%ld (function number = base-|V| digits of the truth table, point 0 least significant)", ONAME[a[0]], g_kind.c_str(), g_shape.c_str(), g_pat[a[1]].c_str(), a[2], a[3], a[4]);
+    snprintf(buf,n,"%s kind=%s shape=%s forests(a,b,c)=%s a=f%lu b=f%lu variant=%ld (function number = base-|V| digits of the truth table, point 0 least significant)", ONAME[a[0]], g_kind.c_str(), g_shape.c_str(), g_pat[a[1]].c_str(), (unsigned long)a[2], (unsigned long)a[3], a[4]);
 }
 
 static void run_binary(const std::map<std::string,std::string>& spec)
@@ -67,12 +73,15 @@ static void run_binary(const std::map<std::string,std::string>& spec)
     char ra = spec_get(spec,"ra")[0];
     std::string pairs = spec_get(spec,"pairs","all");
     int alt = (int)spec_int(spec,"alt",0);
+    const unsigned long thin = (unsigned long)spec_int(spec,"thin",1);     // deterministic thinning of the operand pairs (1 = all)
     const char* rules = rel ? "FQI" : "FQ";
     Kind ka = mk(rel,ty,ra);
     g_kind = ka.name(); g_shape = s.name;
-    std::vector<double> V = alphabet(ka, alt);
+    std::vector<double> V = alphabet_for(ka, s, alt);
     long P = s.points(rel);
-    unsigned long U = ipow(V.size(),P);
+    const bool big = (double)P*std::log2((double)V.size()) > 22.0;     // universe not enumerable: operands from families, built lazily
+    unsigned long U = big ? 0 : ipow(V.size(),P);
+    if (big && pairs!="famfam0" && pairs!="evev") { declined("shape %s: universe not enumerable, pairs=%s not supported", s.name.c_str(), pairs.c_str()); return; }
 
     lib_init();
     domain* d = make_domain(s);
@@ -89,6 +98,8 @@ static void run_binary(const std::map<std::string,std::string>& spec)
     std::map<char,forest*> boolF;
     auto get_bool = [&](char r)->forest* { auto it=boolF.find(r); if (it!=boolF.end()) return it->second; Kind k; k.rel=rel; k.range='b'; k.lab='m'; k.rr=r; forest* F=make_forest(d,k,Pol()); boolF[r]=F; return F; };
     std::vector<unsigned long> fam = (pairs=="fam0"||pairs=="famfam0") ? structured_family(ka,s,V,1,false) : structured_family(ka,s,V,2,true);
+    // evev: "event" functions (value V[1] on a single transition with identity elsewhere, V[0] elsewhere) x unions of two events; two-value alphabets only
+    std::vector<unsigned long> ev1, ev2; if (pairs=="evev" && V.size()==2 && rel) { ev1 = event_masks(s,false); ev2 = event_masks(s,true); if (ev2.size()>400) { std::vector<unsigned long> t; for (size_t i=0;i<ev2.size();i+=ev2.size()/400+1) t.push_back(ev2[i]); ev2=t; } }
     ctx.counters["universe"]=(long)U; ctx.counters["family"]=(long)fam.size();
 
     for (const char* rb=rules; *rb; ++rb) for (const char* rc=rules; *rc; ++rc) for (int distinct=0; distinct<2; distinct++) {
@@ -119,7 +130,7 @@ static void run_binary(const std::map<std::string,std::string>& spec)
                     for (long p=0;p<P;p++) { int must; want[p]=scal(ka,o,ta[p],tb[p],must); if (must==3) skip=true; if (must==1||must==2) { mustAny=must; if (must==1 && ta[p]!=0) all00=false; if (must==2 && ta[p]!=INF) allinfinf=false; } }
                     if (skip) { ctx.counters["skipped_outside_documented_domain"]++; return; }
                     bool threw=false; error::code tc = error::MISCELLANEOUS; const char* tn="";
-                    try { bop->compute(A->e[i], B->e[j], r); } catch (MEDDLY::error e) { threw=true; tc=e.getCode(); tn=e.getName(); }
+                    try { bop->compute(A->get(i), B->get(j), r); } catch (MEDDLY::error e) { threw=true; tc=e.getCode(); tn=e.getName(); }
                     if (mustAny) {
                         ctx.counters["error_cases"]++;
                         const bool same = (A->F==B->F && i==j);
@@ -143,15 +154,16 @@ static void run_binary(const std::map<std::string,std::string>& spec)
                     // values: canonical edge when the result universe holds the table, else double read-out
                     long ei = (RF==C->F) ? C->index_of(want) : -1;
                     if (ei>=0 && rk.range!='r') {
-                        if (r != C->e[ei]) { Table x; read_eval(r,rk,s,x); violation(tab_eq(rk,x,want)?"noncanonical-result":"wrong-result","a=[%s] b=[%s]: result reads [%s], expected [%s]", tab_str(ta).c_str(), tab_str(tb).c_str(), tab_str(x).c_str(), tab_str(want).c_str()); }
+                        if (r != C->get(ei)) { Table x; read_eval(r,rk,s,x); violation(tab_eq(rk,x,want)?"noncanonical-result":"wrong-result","a=[%s] b=[%s]: result reads [%s], expected [%s]", tab_str(ta).c_str(), tab_str(tb).c_str(), tab_str(x).c_str(), tab_str(want).c_str()); }
                     } else {
                         std::string err = check_result(r,rk,s,want,rk.range!='r');
                         if (!err.empty()) violation(err.compare(0,12,"NONCANONICAL")==0?"noncanonical-result":"wrong-result","a=[%s] b=[%s]: %s", tab_str(ta).c_str(), tab_str(tb).c_str(), err.c_str());
                     }
-                    if (!tab_is_const(want)) note_nontrivial(hmix(hmix(o*2+resb,pi), i*U+j));
+                    if (!tab_is_const(want)) note_nontrivial(hmix(hmix(hmix(o*2+resb,pi), i), j));
                 };
                 if (pairs=="all") { for (unsigned long i=0;i<U && !ctx.stop;i++) { for (unsigned long j=0;j<U;j++) one(i,j); if (ctx.viol>ctx.maxviol && ctx.only<0 && ctx.upto<0) ctx.stop=true; } }
-                else if (pairs=="famfam0") { for (unsigned long i : fam) { if (ctx.stop) break; for (unsigned long j : fam) one(i,j); if (ctx.viol>ctx.maxviol && ctx.only<0 && ctx.upto<0) ctx.stop=true; } }
+                else if (pairs=="evev") { for (unsigned long i : ev1) { if (ctx.stop) break; for (unsigned long j : ev2) { if (thin>1 && hmix(i,j)%thin) continue; one(i,j); one(j,i); } if (ctx.viol>ctx.maxviol && ctx.only<0 && ctx.upto<0) ctx.stop=true; } }
+                else if (pairs=="famfam0") { for (unsigned long i : fam) { if (ctx.stop) break; for (unsigned long j : fam) { if (thin>1 && i!=j && hmix(i,j)%thin) continue; one(i,j); } if (ctx.viol>ctx.maxviol && ctx.only<0 && ctx.upto<0) ctx.stop=true; } }
                 else {
                     for (unsigned long i=0;i<U && !ctx.stop;i++) { for (unsigned long j : fam) one(i,j); if (ctx.viol>ctx.maxviol && ctx.only<0 && ctx.upto<0) ctx.stop=true; }
                     for (unsigned long i : fam) { if (ctx.stop) break; for (unsigned long j=0;j<U;j++) one(i,j); if (ctx.viol>ctx.maxviol && ctx.only<0 && ctx.upto<0) ctx.stop=true; }
@@ -201,8 +213,8 @@ static void run_unary(const std::map<std::string,std::string>& spec)
                 if (!case_lazy(fmt_un, (long)(which?"MIN_RANGE":"MAX_RANGE"), *ra, '-', (long)i)) continue;
                 double want = which ? mn : mx;
                 try {
-                    if (k0.range=='i') { long res=0; apply(which?MIN_RANGE:MAX_RANGE, A->e[i], res); if (want==INF) { ctx.counters["range_infinite_result_not_compared"]++; } else if ((double)res!=want) violation("wrong-range","table [%s]: %s returned %ld, expected %g", tab_str(t).c_str(), which?"MIN_RANGE":"MAX_RANGE", res, want); }
-                    else { double res=0; apply(which?MIN_RANGE:MAX_RANGE, A->e[i], res); if (!val_eq(k0,res,want)) violation("wrong-range","table [%s]: %s returned %g, expected %g", tab_str(t).c_str(), which?"MIN_RANGE":"MAX_RANGE", res, want); }
+                    if (k0.range=='i') { long res=0; apply(which?MIN_RANGE:MAX_RANGE, A->get(i), res); if (want==INF) { ctx.counters["range_infinite_result_not_compared"]++; } else if ((double)res!=want) violation("wrong-range","table [%s]: %s returned %ld, expected %g", tab_str(t).c_str(), which?"MIN_RANGE":"MAX_RANGE", res, want); }
+                    else { double res=0; apply(which?MIN_RANGE:MAX_RANGE, A->get(i), res); if (!val_eq(k0,res,want)) violation("wrong-range","table [%s]: %s returned %g, expected %g", tab_str(t).c_str(), which?"MIN_RANGE":"MAX_RANGE", res, want); }
                     if (!tab_is_const(t)) note_nontrivial(hmix(which+100, hmix(*ra,i)));
                 } catch (MEDDLY::error e) { if (e.getCode()==error::NOT_IMPLEMENTED || e.getCode()==error::TYPE_MISMATCH) { char b[96]; snprintf(b,sizeof b,"%s on %s: %s", which?"MIN_RANGE":"MAX_RANGE", A->k.name().c_str(), e.getName()); if (declined_once.insert(b).second) declined("%s",b); } else violation("op-error","range query threw %s (%s:%u)", e.getName(), e.getFile(), e.getLine()); }
             }
@@ -223,7 +235,7 @@ static void run_unary(const std::map<std::string,std::string>& spec)
                     Table t=A->table(i), want(P); bool skip=false;
                     for (long p=0;p<P;p++) { double v=t[p]; switch (uo.id) { case 0: want[p]= v>=0 ? v+1 : v; break; case 1: want[p]= v==INF?INF:-v; break; case 2: want[p]= v==INF?INF:(v>=0?v+1:0); break; default: want[p]= v==INF?INF:v*v; } if (k0.isEVp() && want[p]<0 && false) skip=true; }
                     if (skip) continue;
-                    try { uo.op->compute(A->e[i], r); std::string err = check_result(r,C->k,s,want,C->k.range!='r');
+                    try { uo.op->compute(A->get(i), r); std::string err = check_result(r,C->k,s,want,C->k.range!='r');
                         if (!err.empty()) {
                             const char* tag = err.compare(0,12,"NONCANONICAL")==0?"noncanonical-result":"wrong-result";
                             if (uo.id==0 && A->k.rr=='I') {
